@@ -158,60 +158,63 @@ class Runner:
         self.ck, self.c10, self.Event, self.flood, self.labels, self.have_driver = ck, c10, Event, flood, labels, have_driver
         self.ql = TX.QueryLayer()
         self.pending = []           # (stream, p, inp views, impl views, wire, replay) for the model comparison
+        self.last = None
 
     def fn(self, route):
         """the callable of a route; it remembers the result objects of the last call (typed provenance clause,
         vandalising)"""
         def g(objs, p):
-            self._last_out_objs = None
+            self.last = None
             if route == "direct":
                 r = self.flood(objs, p)
             else:
                 r = self.ql.call(route, "flood", objs)      # the wrapper's pulsetime is flood's default
-            self._last_out_objs = r
+            self.last = r
             return r
         return g
 
-    def call(self, stream, route, p, specs, objs=None, replay=None, fast=False, both=True, shrink=None):
-        """-> message of the first failed clause (or None)"""
+    def verdict(self, route, p, objs, fast=False):
+        """-> (input views, output views, first failed clause | "skip" (out of domain) | None)"""
+        c10 = self.c10
+        P = pulse_us(p)
+        before = {o.id: copy.deepcopy(o.data) for o in objs}
+        unique = len(before) == len(objs) and None not in before
+        inp, out, modified = c10.run_impl(("hist", p, None), self.Event, self.fn(route), self.labels, objs=objs)
+        if modified and modified.startswith("flood raised"):
+            return inp, out, ("raised: " + modified if c10.in_domain(sorted(inp, key=lambda v: v[1])) else "skip-raised: " + modified)
+        if modified:
+            return inp, out, "input-modified: input modified: " + modified
+        bad = oracle_fast(P, inp, out, c10) if fast else c10.oracle(P, inp, out)
+        if not fast and head(oracle_fast(P, inp, out, c10)) != head(bad):
+            self.ck.count("oracle-sweep-differs-from-oracle(harness defect)")
+        if bad is None and unique:
+            # typed provenance: flood returns (re-timed copies of) its input events, ids are unique in these streams
+            for e in self.last:
+                src = before.get(e.id, self)
+                if src is self or not TX.strict_eq(e.data, src):
+                    return inp, out, (f"output data: output event id={e.id} carries data {TX.typed_repr(e.data)}, its input event has "
+                                      f"{'no such id' if src is self else TX.typed_repr(src)}")
+        return inp, out, bad
+
+    def call(self, stream, route, p, objs, replay=None, fast=False, shrink=None):
+        """-> the first failed clause (or None)"""
         ck, c10 = self.ck, self.c10
         P = pulse_us(p)
         ck.count("stream:" + stream)
         ck.count(f"route:{route}")
-        if objs is not None:
-            before = [(id(o), TX.spec_of(o)) for o in objs]
-        inp, out, modified = c10.run_impl((stream, p, specs), self.Event, self.fn(route), self.labels, objs=objs)
+        inp, out, bad = self.verdict(route, p, objs, fast)
         rep = replay or (lambda: {"route": route, "pulsetime_s": p, "events_us_rel": c10.rel(inp)})
-        if modified and modified.startswith("flood raised"):
-            if c10.in_domain(sorted(inp, key=lambda v: v[1])):
-                ck.failing_input("C10:raised", f"[{stream}/{route}] " + modified, rep())
-            else:
-                ck.disagreement(f"flood[{stream}]", modified + " (the model returns a list)", rep())
-            return modified
-        if modified:
-            ck.failing_input("C10:input-modified", f"[{stream}/{route}] input modified: " + modified, rep())
-            return modified
-        bad = oracle_fast(P, inp, out, c10) if fast else c10.oracle(P, inp, out)
-        if both and not fast:
-            if head(oracle_fast(P, inp, out, c10)) != head(bad):
-                ck.count("oracle-sweep-differs-from-oracle(harness defect)")
         ck.count("oracle:not-applicable(out of domain)" if bad == "skip" else "oracle:applied")
+        if bad and bad.startswith("skip-raised"):
+            ck.disagreement(f"flood[{stream}]", bad + " (the model returns a list)", rep())
+            return bad
         if bad not in (None, "skip"):
-            if shrink:          # drop events while the same clause still fails (on fresh objects), then report that input
-                rep, out_s, bad = shrink(head(bad), bad)
-                ck.failing_input("C10:" + head(bad), f"[{stream}/{route}] " + bad, dict(rep(), impl_output_us_rel=c10.rel(out_s)))
-            else:
-                ck.failing_input("C10:" + head(bad), f"[{stream}/{route}] " + bad, dict(rep(), impl_output_us_rel=c10.rel(out)))
-        elif bad is None and objs is not None:
-            # typed provenance: ids are unique in these streams; flood returns (re-timed copies of) its input events
-            by_id = {s[3]: s[2] for _, s in before}
-            for e_view, e in zip(out, self._last_out_objs):
-                src = by_id.get(e.id, self)
-                if src is self or not TX.strict_eq(e.data, src):
-                    bad = (f"output data: output event id={e.id} carries data {TX.typed_repr(e.data)}, its input event has "
-                           f"{'no such id' if src is self else TX.typed_repr(src)}")
-                    ck.failing_input("C10:output data", f"[{stream}/{route}] " + bad, dict(rep(), impl_output_us_rel=c10.rel(out)))
-                    break
+            d = dict(rep(), impl_output_us_rel=c10.rel(out))
+            if shrink and not ck.violations:
+                bad, d = shrink(bad, d)
+            ck.failing_input("C10:" + head(bad), f"[{stream}/{route}] " + bad, d)
+            if head(bad) in ("raised", "input-modified"):
+                return bad
         self.pending.append((stream, p, inp, out, c10.wire_case(P, inp), rep))
         ck.note_case([stream, route, P, c10.rel(inp)] if len(inp) < 50 else [stream, route, P, len(inp), c10.rel(inp[:20])],
                      nontrivial=len(out) < len(inp) or any(a != b for a, b in zip(inp, out)))
@@ -249,19 +252,15 @@ def run(ck, c10, Event, flood, labels, have_driver):
     n_exh, n_samp = (2, 500) if quick else (3, 20_000)
     for k, case in enumerate(gen_q2(rng, c10, n_exh, n_samp)):
         _, p, evs = case
-        specs = [(t, d, x, i) for i, (t, d, x) in enumerate(evs)]
-        objs = TX.build(Event, specs)
-        R.call("q2", ("registry", "program")[k % 2], p, specs, objs=objs)
+        R.call("q2", ("registry", "program")[k % 2], p, TX.build(Event, [(t, d, x, i) for i, (t, d, x) in enumerate(evs)]))
 
     # -- sessions
     n_sessions = 150 if quick else 6000
     for _ in range(n_sessions):
         p, specs, pool = session_base(rng)
         S = TX.Session(Event, {"events": specs}, pool=pool)
-        S.unique_ids = True
-        plan = S.plan(rng, rng.choice([6, 8, 10]))
         ps = [p]
-        for name in plan:
+        for name in S.plan(rng, rng.choice([6, 8, 10])):
             what = S.step(name, rng)
             if what is None:
                 continue
@@ -278,8 +277,15 @@ def run(ck, c10, Event, flood, labels, have_driver):
             S.record(name, what, {"route": route, "module": "aw_transform.flood", "name": "flood"},
                      {"pulsetime": pp} if route == "direct" else {})
             k = len(S.log)
-            bad = R.call("session", route, pp, S.specs("events"), objs=objs, replay=lambda S=S, k=k: S.replay(k))
-            S.results.append(getattr(R, "_last_out_objs", None))
+
+            def shrink(bad, d, S=S, k=k):
+                def judge(st, args):
+                    c = st["call"]
+                    return R.verdict(c["route"], st["scalars"].get("pulsetime", 5), args[0])[2]
+                steps, ok = TX.minimise_session(S.log[:k], Event, TX.generic_call(R.ql), judge, head(bad))
+                return bad, TX.session_replay(steps, ok)
+            bad = R.call("session", route, pp, objs, replay=lambda S=S, k=k: S.replay(k), shrink=shrink)
+            S.results.append(R.last)
             ck.count("session-step:" + name)
             if bad:
                 break
@@ -293,18 +299,19 @@ def run(ck, c10, Event, flood, labels, have_driver):
         specs = [(t, d, x, i) for i, (t, d, x) in enumerate(evs)]
         ck.count("len>=%d" % TX.BIG_N)
 
-        def shrink(sig, bad, specs=specs, p=p, route=route):
+        def shrink(bad, d, specs=specs, p=p, route=route):
+            """drop events while the same clause still fails (fresh objects every time)"""
+            sig = head(bad)
+
             def attempt(cand):
-                i2, o2, m2 = c10.run_impl(("shrink", p, cand), Event, R.fn(route), labels, objs=TX.build(Event, cand))
-                return o2, (None if m2 else oracle_fast(pulse_us(p), i2, o2, c10))
-            small = specs
-            if not ck.violations:
-                small = common.shrink_list(specs, lambda cand: head(attempt(cand)[1]) == sig, max_steps=70)
+                _, o2, b2 = R.verdict(route, p, TX.build(Event, cand), fast=True)
+                return o2, b2
+            small = common.shrink_list(specs, lambda cand: head(attempt(cand)[1]) == sig, max_steps=70)
             o2, b2 = attempt(small)
             if head(b2) != sig:
-                small, (o2, b2) = specs, attempt(specs)
-            return (lambda: big_replay(small, route, p)), o2, (b2 or bad)
-        R.call("big", route, p, specs, objs=TX.build(Event, specs), replay=lambda specs=specs, route=route, p=p: big_replay(specs, route, p),
+                return bad, d
+            return b2, dict(big_replay(small, route, p), impl_output_us_rel=c10.rel(o2))
+        R.call("big", route, p, TX.build(Event, specs), replay=lambda specs=specs, route=route, p=p: big_replay(specs, route, p),
                fast=True, shrink=shrink)
     R.compare_with_model()
     ck.coverage["round3"] = {
